@@ -745,3 +745,36 @@ def c16(ctx):
             rep.ob("C16.R4", "combine_all::try_fold", ok, why, ca.loc(), how="loop from Default::default(), `?` on every element, Ok(acc)")
             rep.ob("C16.R4", "combine_all::combine-order", ok, why, ca.loc(), how="acc = acc.combine(x?)")
     common.errflow(ctx, "C16.R4", lambda fn: fn.file.endswith("analysis/visit.rs"), forbid_map_err=True)
+    # ---- R9 every other place that combines results: earlier on the left
+    rep.rule("C16.R9", "results are folded in the order they were produced: at every Combine::combine call of the traversal code (outside "
+             "combine_all, see R4) every visit whose result is (part of) the receiver is executed before every visit whose result is (part "
+             "of) the argument; in a closure handed to try_fold / fold the accumulator is the receiver and never the argument")
+    from ..guards import _closure_use
+    n9 = 0
+    for fn in F.all_bodies(tests=False):
+        if not fn.file.endswith("analysis/visit.rs") or common.top_fn(F, fn).path == "analysis::visit::combine_all":
+            continue
+        for bi, t in fn.calls():
+            if not (callee_def(t) or "").endswith("Combine::combine") or len(t["args"]) < 2:
+                continue
+            n9 += 1
+            rep.analysed(common.top_fn(F, fn))
+            ok, why = True, ""
+            use = _closure_use(F, fn) if fn.kind == "closure" else None
+            if use and use[2]["callee"].get("name") in ("try_fold", "fold", "try_rfold", "rfold"):
+                acc_r = any(d[0] == "param" and d[1] == 2 for d, _ in kind_deep_(fn, t["args"][0]))
+                acc_a = any(d[0] == "param" and d[1] == 2 for d, _ in kind_deep_(fn, t["args"][1]))
+                if acc_a or not acc_r:
+                    ok, why = False, "in the fold closure the accumulator is %s of combine: each new result is put in front of the earlier ones" % ("the argument" if acc_a else "not the receiver")
+            else:
+                def vis(o):
+                    return {d[1] for d, _ in kind_deep_(fn, o) if d[0] == "call" and ((fn.term(d[1])["callee"].get("name") or "").startswith("visit_") or callee_def(fn.term(d[1])) == "analysis::visit::combine_all")}
+                left, right = vis(t["args"][0]), vis(t["args"][1])
+                for a in left:
+                    for b in right:
+                        if a != b and a in fn.reachable_from_succs(b) and b not in fn.reachable_from_succs(a):
+                            ok, why = False, "the receiver of combine holds the result of %s (line %s), which is produced after the argument's %s (line %s): the results are folded against the order in which they were produced" % (
+                                fn.term(a)["callee"].get("name"), fn.term(a)["line"], fn.term(b)["callee"].get("name"), fn.term(b)["line"])
+            rep.ob("C16.R9", "combine-order::%s#%d" % (common.top_fn(F, fn).path, sum(1 for b2, t2 in fn.calls() if b2 < bi and (callee_def(t2) or "").endswith("Combine::combine"))), ok, why, fn.loc(t["line"]),
+                   how="receiver produced before the argument / accumulator on the left")
+    rep.floor("C16.R9", n9, 12, "Combine::combine call sites in the traversal code")
